@@ -355,7 +355,10 @@ func (h *harness) oracle3(pr params, s sdf.SDF3, kids []interface{}, desc, coq, 
 		}
 		var m sdf.M44
 		copy(m[:], pr.fs)
-		inv := m.Inverse()
+		inv, ok := exactInverse44(m) // independent of the implementation's Inverse (rationals, lookalike.go)
+		if !ok {
+			inv = m.Inverse()
+		}
 		for _, p := range pts {
 			var vals []float64
 			x := p
@@ -749,7 +752,10 @@ func (h *harness) oracle2(pr params, s sdf.SDF2, kids []interface{}, desc, coq, 
 		}
 		var m sdf.M33
 		copy(m[:], pr.fs)
-		inv := m.Inverse()
+		inv, ok := exactInverse33(m) // independent of the implementation's Inverse (rationals, lookalike.go)
+		if !ok {
+			inv = m.Inverse()
+		}
 		for _, p := range pts {
 			var vals []float64
 			x := p
